@@ -61,7 +61,6 @@ m = {
  "not_applicable": na,
  "notes": "Genuine defects repaired by fix: commits in /repo: f53646d (D1), a53caa7 (D2), 4d01511 (D3), 59d3d8a (D4), fbf206d (D6); recorded known finding: D5 (C18), see known_findings.json and DESIGN.md §3.",
 }
-if not na:
-    m.pop("not_applicable")
+# an empty list is kept on purpose: every one of the 19 properties is claimed (C15 and C18 as partial, see DESIGN.md §5)
 json.dump(m, open(os.path.join(V, "MANIFEST.json"), "w"), indent=1)
 print("claimed:", [c["property_id"] for c in checks], "not claimed:", [x["property_id"] for x in na])
